@@ -6,6 +6,7 @@ from props import c01, c03
 
 ID = "C22"
 LEVEL = "exploration"
+TAG_KEYS = True   # violation keys get the configuration feature tag appended (engine.feature_tag)
 RULE = ("(a) exhaustive: for bits in 1..8 and all a,b in [0,2^bits) the five order-hint distance helpers (get_relative_dist_enc, the three file-local encoder copies via "
         "H5 accessors, the decoder copy) must equal ((a-b+m) mod 2m)-m, m=2^(bits-1), and 0 when order hints are disabled (static harness on the real objects). "
         "(b) Hypothesis draws 64x64 preset-8 streams with N in {130..5100} (beyond 2^7 order hints, the 2048-deep reorder queues, the 5000-deep reference queues) x "
